@@ -228,6 +228,22 @@ Theorem C17_chunk_list_source :
 Proof. exact (@chunks_get_chunk_spec). Qed.
 Print Assumptions C17_chunk_list_source.
 
+(* counted move from a buffer source into a buffer sink (per octet, no extension): with enough unread octets and enough room exactly the next n octets are appended, in order *)
+Theorem C17_buffer_to_buffer :
+  forall (fuel : nat) (total rest : N) (s k : bbuf),
+         bb_inv s ->
+         bb_inv k ->
+         rest <= bb_rest s ->
+         rest <= bb_avail k ->
+         (N.to_nat rest < fuel)%nat ->
+         exists s' k' : bbuf,
+           buf_sts_n fuel total rest s k = Some (DOk total, s', k') /\
+           bb_unread s' = skipn (N.to_nat rest) (bb_unread s) /\
+           bb_filled k' = bb_filled k ++ firstn (N.to_nat rest) (bb_unread s) /\
+           bb_offset k' = bb_offset k /\ bb_inv s' /\ bb_inv k'.
+Proof. exact (@buf_sts_n_spec). Qed.
+Print Assumptions C17_buffer_to_buffer.
+
 (* a byte buffer as sink: N octets are appended exactly, or the call is refused with ENOMEM and the buffer is unchanged *)
 Theorem C17_buffer_sink :
   forall (b : bbuf) (xs : list N) (n : N),
